@@ -414,3 +414,30 @@ Lemma graph_noninterference_shape_l x c0 :
   is_router x = true ->
   arrivals (snd (run_graph x c0)) = map (pref c0) (upstream x) /\ panics (snd (run_graph x c0)) = [].
 Proof. intros H. apply graph_noninterference_l. now apply router_ok. Qed.
+
+(* ---- "advertises itself as mutating exactly when ... may mutate it": semantic reading ---------------- *)
+(* if running a pipeline (or any well-formed consumer below a fan-out) changes the content of the payload it was
+   given, then it advertises MutatesData *)
+Lemma advertises_if_mutates_l x c s :
+  (is_pipeline x = true \/ is_exporter x = true) -> c < length s -> cro (get s c) = false ->
+  cont (get (fst (trun x c s)) c) <> cont (get s c) -> ccap x = true.
+Proof.
+  intros SH L RO CH.
+  assert (G : good x) by (destruct SH as [H|H]; [apply (proj1 (shape_ok x) H)|apply (proj1 (proj2 (shape_ok x)) H)]).
+  destruct G as [OK MW].
+  destruct (may_write x) eqn:M; [auto|]. exfalso. apply CH.
+  destruct (trun x c s) as [s' ev] eqn:R.
+  destruct (run_spec x c s s' ev L (fun _ => RO) OK R) as [_ _ _ KEEP _ _]. simpl. apply KEEP. now left.
+Qed.
+
+(* the converse is FALSE of the code as it is: a pipeline whose only exporter is a non-mutating connector feeding a
+   mutating and a non-mutating pipeline advertises MutatesData (aggregateCap ORs the next pipelines' capabilities),
+   yet nothing ever writes the payload it was given (the connector's router clones for the mutating pipeline) *)
+Definition over_advertising_pipeline : comp :=
+  CCap (CFanout [CConn 1 false (CFanout [CCap (CProc 2 true (CFanout [CExp 3 false])); CCap (CFanout [CExp 4 false])])]).
+
+Lemma advertises_only_if_mutates_refuted_l :
+  exists x, is_pipeline x = true /\ ccap x = true /\
+            cont (get (fst (trun x 0 [mkCell [] false])) 0) = cont (get [mkCell [] false] 0) /\
+            panics (snd (trun x 0 [mkCell [] false])) = [].
+Proof. exists over_advertising_pipeline. vm_compute. repeat split; reflexivity. Qed.
